@@ -238,12 +238,22 @@ def lookup_shape(F, rep):
 
 def map_building(F, rep):
     # the function inserting into the (symbol, date) -> price map
+    from rules.c08 import _R
+    is_ins = lambda cal: parse_callee(cal)[2] == "insert" and ("HashMap" in cal or "BTreeMap" in cal)
     bs = []
-    for b in F.bodies.values():
-        if b.crate == "cgt_converter" and P.user_written(F, b) and "AwardsData" in b.ret:
-            ins = [(i, t) for i, t in b.calls() if parse_callee(t["callee"])[2] == "insert" and "HashMap" in t["callee"]]
-            if ins:
-                bs.append((b, ins))
+    root = None
+    for rb in F.bodies.values():
+        if rb.crate == "cgt_converter" and P.user_written(F, rb) and "AwardsData" in rb.ret and rb.kind == "fn":
+            rg0 = _R(F).region(rb, depth=2)
+            holders = {}
+            for it in rg0.items:
+                if is_ins(it["term"]["callee"]):
+                    holders.setdefault(it["body"].id, it["body"])
+            if holders:
+                root = rb
+                # the inserts live in the builder itself or in one per-entry helper of it
+                for hb in holders.values():
+                    bs.append((hb, [(i, t) for i, t in hb.calls() if is_ins(t["callee"])]))
     if len(bs) != 1:
         rep.unresolved("R2", "MAPBUILD", f"{len(bs)} functions build the awards map")
         return
@@ -296,20 +306,32 @@ def map_building(F, rep):
                "the 'vest entry inserted' flag is initialised once, outside the loop over awards entries: after the first vest-style entry "
                "every later fallback-only entry is silently dropped from the lookup map",
                b.loc(), key="R2:build:flag-scope")
+    if not flags and len(ins) == 2:
+        # flag-free spelling: the two inserts sit on opposite edges of one branch (`if has_vest {…vest inserts…} else {…fallback…}`)
+        (i1, t1), (i2, t2) = ins
+        for s in b.reachable():
+            sw = b.term(s)
+            if sw["k"] != "switch":
+                continue
+            e1 = [tg for tg in b.succ(s) if b.edge_dominates((s, tg), i1)]
+            e2 = [tg for tg in b.succ(s) if b.edge_dominates((s, tg), i2)]
+            if e1 and e2 and set(e1).isdisjoint(e2):
+                guarded += 1
+                break
     rep.ob("R2", "build:fallback-only-if-no-vest", guarded >= 1,
            "the fallback price is inserted under a test of the flag set by the vest-entry insert" if guarded >= 1 else
            "the fallback price is inserted unconditionally: it can shadow a vest-date entry", b.loc(), key="R2:build:fallback-guard")
     # empty details on a vesting action -> error
     from rules.c08 import _R
-    brg = _R(F).region(b, depth=1)
+    brg = _R(F).region(root if root is not None else b, depth=2)
     errs = [s for hb in brg.bodies.values() for i, si, s in hb.assigns() if s["rv"]["k"] == "agg" and s["rv"]["adt"].endswith("::ConvertError")]
-    empties = [i for i, t in b.calls() if parse_callee(t["callee"])[2] == "is_empty"]
+    empties = [it["bb"] for it in brg.items if parse_callee(it["term"]["callee"])[2] == "is_empty"]
     rep.ob("R2", "build:empty-details-error", bool(errs) and bool(empties),
            "a vesting action without details is an error" if errs and empties else
            "no error is raised for a vesting action with empty TransactionDetails", b.loc(), key="R2:build:empty-details")
     # precedence: vest-specific price tested first
     ex = [x for x in F.bodies.values() if x.crate == "cgt_converter" and P.user_written(F, x) and x.kind == "fn"
-          and any("vest_fair_market_value" in str(s) for _, _, s in x.assigns()) and x.id != b.id]
+          and any("vest_fair_market_value" in str(s) for _, _, s in x.assigns()) and x.id != b.id and (root is None or x.id != root.id)]
     for x in ex:
         xt = Terms(F, x, inline_depth=0)
         order = []
